@@ -1,1 +1,4 @@
+pub mod c04;
 pub mod c05;
+pub mod c09;
+pub mod c12;
